@@ -48,6 +48,9 @@ def ub_subjects(tier, derive_use, miri=False):
             decls += enums.family_P(r)
         for r in ("i16", "u64"):
             decls += enums.family_A(r)
+        decls += enums.family_D("i8", 6, "zero", min_n=4)
+        for r in ("i8", "u16", "u64"):
+            decls += enums.family_R(r)      # many runs (seed C02-r6m2: a search over the run table that is only generated for >= 16 runs)
         bounds = dict(x1_depth=2, x2_extra=2, x2_cap=6, range_x1_depth=1, range_x2_extra=1)
     else:
         decls = []
@@ -59,6 +62,8 @@ def ub_subjects(tier, derive_use, miri=False):
             decls += family_L(r)
         for r in ("i8", "u16", "i32", "u64"):
             decls += enums.family_R(r) + enums.family_A(r) + enums.family_M(r, 3)
+        for r in ("i8", "u8", "i64"):
+            decls += enums.family_D(r, 7, "zero")
         for r in ("i32", "u32", "i64", "u64", "i128", "u128", "isize", "usize"):
             decls += enums.family_P(r)
         # (the 65534-variant enums of family H run natively in C01/C03/C05/C06 thorough: a false unchecked assumption there
@@ -71,7 +76,7 @@ def ub_subjects(tier, derive_use, miri=False):
         for lab, cfg in mode_sets(d.gapless):
             if cfg is None or (huge and lab == "inline"):
                 continue
-            if tier == "quick" and not miri and d.tag.get("family", "").startswith("F(") and d.repr in ("u8", "u128") and lab in ("auto", "inline", "range"):
+            if tier == "quick" and not miri and ((d.tag.get("family", "").startswith("F(") and d.repr in ("u8", "u128")) or d.tag.get("family", "").startswith("D(")) and lab in ("auto", "inline", "range"):
                 continue    # quick: all six mode sets on i8/i64, the three table/match/plain sets on u8/u128
             b = dict(bounds)
             if big:
